@@ -197,7 +197,7 @@ func (w *World) BuildStore(r StoreReq) (*saotypes.MsgStore, *actors.Account) {
 func (w *World) Store(r StoreReq) (*TxEvent, uint64) {
 	m, relayer := w.BuildStore(r)
 	e := w.Deliver("store", relayer, r.Meta, m)
-	id, _ := AttrU64(e.Marks, "new-order", "order-id")
+	id, _ := NewOrderID(e)
 	if !e.OK {
 		id = 0
 	}
